@@ -198,3 +198,7 @@ def check(ctx: Ctx) -> None:
     check_terminal_frame(ctx, "C18.e")
     from .C03 import check_del_notifies
     check_del_notifies(ctx, "C18.g")
+
+    # a closed or dropped channel leaves both tables on every path of the close transition (sendonly included)
+    from .C03 import check_transition_complete
+    check_transition_complete(ctx, "C18.h")
